@@ -320,10 +320,15 @@ func c09CheckCache(c c09CacheCase) h.Result {
 				continue
 			}
 			pk := keyBytes[op.Key]
-			var ck curve.CompressedEdwardsY
-			copy(ck[:], pk)
+			// the key buffer is the caller's and is reused (overwritten) after the
+			// call: the cache must not remember the pointer
+			ckp := new(curve.CompressedEdwardsY)
+			copy(ckp[:], pk)
 			if op.K == "get" {
-				got := lc.Get(&ck)
+				got := lc.Get(ckp)
+				for i := range ckp {
+					ckp[i] = 0xee
+				}
 				val, ok := model.Get(string(pk))
 				r.Eval(1)
 				r.Class(fmt.Sprintf("get/hit:%v", ok))
@@ -331,7 +336,7 @@ func c09CheckCache(c c09CacheCase) h.Result {
 					return r.Fail("lruCache.Get:differs-from-model", "op %d key %x: got %v, model resident=%v", opi, pk, got != nil, ok).Result()
 				}
 				if got != nil {
-					if cy := got.CompressedY(); cy != ck {
+					if cy := got.CompressedY(); !bytes.Equal(cy[:], pk) {
 						return r.Fail("lruCache.Get:wrong-key-returned", "op %d asked %x got %x", opi, pk, cy[:]).Result()
 					}
 				}
@@ -346,7 +351,10 @@ func c09CheckCache(c c09CacheCase) h.Result {
 					evictions++
 				}
 				r.Class(fmt.Sprintf("put/resident:%v/evict:%v", resident, did))
-				lc.Put(&ck, xk)
+				lc.Put(ckp, xk)
+				for i := range ckp {
+					ckp[i] = 0xee
+				}
 			}
 		case "bverify", "bonly":
 			r.Class(op.K)
